@@ -1,17 +1,35 @@
 //! Supporting Functions and Types (VirtualTargetPath)
-use std::collections::HashMap;
+use std::collections::{BTreeMap, HashMap};
 use std::fmt;
 use std::fmt::Debug;
 use std::str;
 
 use serde::de::{Deserialize, Deserializer, Error as DeserializeError};
-use serde::Serialize;
+use serde::{Serialize, Serializer};
 
 use crate::crypto::{HashAlgorithm, HashValue};
 use crate::{Error, Result};
 
 /// Description of a target, used in verification.
 pub type TargetDescription = HashMap<HashAlgorithm, HashValue>;
+
+/// Serialize a map of artifacts with the digests of every artifact ordered by
+/// hash algorithm. `TargetDescription` is a `HashMap`, whose iteration order
+/// differs between equal values, so serializing it directly makes the JSON
+/// text of one and the same metadata vary from call to call.
+pub(crate) fn serialize_artifacts<S: Serializer>(
+    artifacts: &BTreeMap<VirtualTargetPath, TargetDescription>,
+    ser: S,
+) -> ::std::result::Result<S::Ok, S::Error> {
+    let ordered: BTreeMap<
+        &VirtualTargetPath,
+        BTreeMap<&HashAlgorithm, &HashValue>,
+    > = artifacts
+        .iter()
+        .map(|(path, digests)| (path, digests.iter().collect()))
+        .collect();
+    ordered.serialize(ser)
+}
 
 /// Wrapper for the Virtual path to a target.
 #[derive(Debug, Clone, PartialEq, Hash, Eq, PartialOrd, Ord, Serialize)]
